@@ -82,6 +82,15 @@ func (e *Error) AddContext(c Cont, depth int) *Error {
 			if _, ok := c.(*LuaCont); ok {
 				break
 			}
+			// A termination stands for its parent (it has its DebugInfo, and
+			// its Parent() is its parent's): if that is the Lua continuation
+			// that called a Go function as a metamethod, this is the
+			// responsible code.
+			if term, ok := c.(*Termination); ok {
+				if _, ok := term.parent.(*LuaCont); ok {
+					break
+				}
+			}
 			c = c.Parent()
 		}
 	}
